@@ -142,12 +142,41 @@ func (aer *AppExecResult) DecodeBinary(r *io.BinReader) {
 		}
 	}
 	aer.Stack = arr
-	r.ReadArray(&aer.Events)
+	aer.Events = readArray[NotificationEvent](r)
 	aer.FaultException = r.ReadString()
 	if aer.VMState&saveInvocationsBit != 0 {
-		r.ReadArray(&aer.Invocations)
+		aer.Invocations = readArray[ContractInvocation](r)
 		aer.VMState &= cleanSaveInvocationsBitMask
 	}
+}
+
+// readArray reads an array the format sets no limit for (the number of
+// notifications and invocations of an execution is limited by its GAS only):
+// the elements are decoded one by one, so that what is allocated is
+// proportional to the data that is really there, not to the declared length,
+// and the first error ends it.
+func readArray[T any, P interface {
+	*T
+	DecodeBinary(*io.BinReader)
+}](r *io.BinReader) []T {
+	n := r.ReadVarUint()
+	if r.Err != nil {
+		return nil
+	}
+	if n > io.MaxArraySize {
+		r.Err = fmt.Errorf("array is too big (%d)", n)
+		return nil
+	}
+	res := make([]T, 0, min(n, 16))
+	for range n {
+		var e T
+		P(&e).DecodeBinary(r)
+		if r.Err != nil {
+			return nil
+		}
+		res = append(res, e)
+	}
+	return res
 }
 
 // notificationEventAux is an auxiliary struct for NotificationEvent JSON marshalling.
